@@ -43,12 +43,16 @@ pub struct Debugger {
     pub debugee: Debugee,
     /// ghost: user-visible hook calls, in order
     pub hooks_log: Ghost<Seq<HookEv>>,
+    /// ghost: the thread the exploration context is focused on
+    pub focus: Ghost<Pid>,
 }
 
-pub open spec fn same_hooks(a: &Debugger, b: &Debugger) -> bool { a.hooks_log@ == b.hooks_log@ }
+pub open spec fn same_hooks(a: &Debugger, b: &Debugger) -> bool { a.hooks_log@ == b.hooks_log@ && a.focus@ == b.focus@ }
 
 /// the dispatch table for leaving the event loop with `event`
-pub open spec fn exit_ok(event: &StopReason, last_ty: Option<&BrkptType>, log0: Seq<HookEv>, log: Seq<HookEv>) -> bool {
+pub open spec fn exit_ok(event: &StopReason, last_ty: Option<&BrkptType>, log0: Seq<HookEv>, log: Seq<HookEv>, focus: Pid) -> bool {
+    // a stop that names a thread is reported with that thread in focus ("at the true program counter")
+    (match event { StopReason::Breakpoint(p, _) => focus == *p, StopReason::SignalStop(p, _) => focus == *p, StopReason::Watchpoint(p, _, _) => focus == *p, _ => true }) &&
     match event {
         StopReason::Breakpoint(_, pc) => last_ty is Some && (
             (last_ty->Some_0 is UserDefined && log == log0.push(HookEv::Breakpoint(*pc)))
@@ -77,25 +81,28 @@ impl Debugger {
     fn outline_trace_until_stop(&mut self) -> (r: Result<StopReason, DbgError>) ensures same_hooks(old(self), final(self)), { unimplemented!() }
     #[verifier::external_body]
     fn execute_on_watchpoint_hook(&mut self, pid: Pid, pc: RelocatedAddress, ty: &WatchTy) -> (r: Result<(), DbgError>)
-        ensures r is Ok ==> final(self).hooks_log@ == old(self).hooks_log@.push(HookEv::Watchpoint(pc)),
+        ensures r is Ok ==> final(self).hooks_log@ == old(self).hooks_log@.push(HookEv::Watchpoint(pc)) && final(self).focus@ == old(self).focus@,
     { unimplemented!() }
     /// `self.hooks.on_signal(sign)`
     #[verifier::external_body]
-    fn outline_hook_signal(&mut self, sign: Signal) ensures final(self).hooks_log@ == old(self).hooks_log@.push(HookEv::Signal(sign)), { unimplemented!() }
+    fn outline_hook_signal(&mut self, sign: Signal) ensures final(self).hooks_log@ == old(self).hooks_log@.push(HookEv::Signal(sign)), final(self).focus@ == old(self).focus@, { unimplemented!() }
     /// `self.hooks.on_exit(code)`
     #[verifier::external_body]
-    fn outline_hook_exit(&mut self, code: i32) ensures final(self).hooks_log@ == old(self).hooks_log@.push(HookEv::Exit(code)), { unimplemented!() }
+    fn outline_hook_exit(&mut self, code: i32) ensures final(self).hooks_log@ == old(self).hooks_log@.push(HookEv::Exit(code)), final(self).focus@ == old(self).focus@, { unimplemented!() }
     /// the place / function lookup and `self.hooks.on_breakpoint(current_pc, bp.number(), place, func, tracee)` of the UserDefined arm
     #[verifier::external_body]
     fn outline_hook_breakpoint(&mut self, pc: RelocatedAddress) -> (r: Result<(), DbgError>)
-        ensures r is Ok ==> final(self).hooks_log@ == old(self).hooks_log@.push(HookEv::Breakpoint(pc)),
+        ensures r is Ok ==> final(self).hooks_log@ == old(self).hooks_log@.push(HookEv::Breakpoint(pc)) && final(self).focus@ == old(self).focus@,
     { unimplemented!() }
     #[verifier::external_body]
     fn outline_clear_watchpoints(&mut self) ensures same_hooks(old(self), final(self)), { unimplemented!() }
     #[verifier::external_body]
     fn outline_refresh_watchpoints(&mut self) ensures same_hooks(old(self), final(self)), { unimplemented!() }
     #[verifier::external_body]
-    fn ecx_switch_thread(&mut self, pid: Pid) -> (r: Result<(), DbgError>) ensures same_hooks(old(self), final(self)), { unimplemented!() }
+    fn ecx_switch_thread(&mut self, pid: Pid) -> (r: Result<(), DbgError>) ensures final(self).hooks_log@ == old(self).hooks_log@, r is Ok ==> final(self).focus@ == pid, { unimplemented!() }
+    /// refreshes the location of the thread that is ALREADY in focus
+    #[verifier::external_body]
+    fn ecx_update_location(&mut self) -> (r: Result<(), DbgError>) ensures same_hooks(old(self), final(self)), { unimplemented!() }
     #[verifier::external_body]
     fn outline_r_brk(&self) -> (r: RelocatedAddress) { unimplemented!() }
     #[verifier::external_body]
@@ -130,7 +137,7 @@ impl Debugger {
 //@   outline O_cb: `callback.clone()(self);` => `self.outline_run_callback();`
 //@   outline O_ip: `if !self.debugee.is_in_progress() {` => `if !self.outline_in_progress() { proof { in_progress = false; }`
 //@   proof after `if let Some(bp) = self.breakpoints.get_enabled(current_pc) {`: last_ty = Some(&bp.ty);
-//@   rewrite W_break: `stop_reason_loopval_ = event; break;` => `assert(exit_ok(&event, last_ty, log0, self.hooks_log@)); stop_reason_loopval_ = event; break;`
+//@   rewrite W_break: `stop_reason_loopval_ = event; break;` => `assert(exit_ok(&event, last_ty, log0, self.hooks_log@, self.focus@)); stop_reason_loopval_ = event; break;`
 //@   rewrite W_cont2: `_ => continue,` => `_ => { assert(continue_ok(&event, last_ty, in_progress, log0, self.hooks_log@)); continue; }`
 //@   rewrite W_cont1: `continue;` => `assert(continue_ok(&event, last_ty, in_progress, log0, self.hooks_log@)); continue;`
 //@   loop 1 invariant I_entry_quiet: self.hooks_log@ == log0
